@@ -307,7 +307,9 @@ def discover_guards(ctx, rep):
         else:
             rep.ok("C08.6", cons, "every repetition test is `reps != 1`", f.loc())
     cons = construct_of(f, "open-trace-left-by-loop")
-    opened = [g for g, c in reps_cmp if any(isinstance(m, ast.Attribute) and m.attr == "current" for m in ast.walk(g.test)) and any(isinstance(m, ast.Compare) and isinstance(m.ops[0], (ast.Is, ast.IsNot)) and not any(isinstance(k, ast.Constant) and k.value is None for k in m.comparators) for m in ast.walk(g.test))]
+    opened = [g for g, c in reps_cmp if any(isinstance(m, ast.Attribute) and m.attr == "current" for m in ast.walk(g.test)) and any(isinstance(m, ast.Compare) and isinstance(m.ops[0], (ast.Is, ast.IsNot)) and not any(isinstance(k, ast.Constant) and k.value is None for k in m.comparators) for m in ast.walk(g.test))
+              # (the refusal about a trace LEFT OPEN: it asks that there is a current trace; the one about gates put into a superseded trace does not)
+              and any(isinstance(m, ast.Compare) and isinstance(m.ops[0], ast.IsNot) and any(isinstance(k, ast.Constant) and k.value is None for k in m.comparators) and "current" in ast.unparse(m.left) for m in ast.walk(g.test))]
     if opened:
         rep.ok("C08.6", cons, f"`{ast.unparse(opened[0].test)[:90]}` raises", f"{f.path}:{opened[0].lineno}")
     else:
